@@ -21,8 +21,7 @@ SPEC += [
   ("C06", "C06-hints-incomplete", ["proof.hinted"], r"^hints-insufficient", "hinted proof: a nogood follows by propagation from the earlier steps but not from the steps named in its hints (a unit nogood behind a root-level fact is missing from the hints)"),
   ("C06", "C06-literal-definition-root-premise", ["kind.literal_definition"], r"assertion failed: self.assignments.is_predicate_s", "literal created with new_literal_for_predicate for a predicate that is already decided at the root: logging a root propagation asserts on a reason predicate that is not true"),
   ("C15", "C15-cardinality-network-duplicate-soft", ["enc.cardinality-network", "wcnf.duplicate_soft"], r"Sorting network encoding is only supported on unweighted", "duplicate unit soft clauses of a uniform-weight instance are merged into one weighted literal and the cardinality-network encoding panics"),
-  ("C16", "C16-view-invert-overflow", [], r"attempt to divide with overflow @ .*num_ext", "AffineView::invert subtracts the offset and divides in 32 bits: when value - offset is i32::MIN and the scale is -1 the division overflows (panic); seen with max([-x + 65536, ..], 65536 * x) at x = -32767"),
-  ("C16", "C16-extreme-magnitudes", ["mag.regime.extreme"], r".", "constants at the 32-bit limits themselves (|value| >= 2^30 combined with offsets / right-hand sides of the same magnitude): wrapped intermediate results in views, maximum/minimum, absolute, division"),
+  ("C16", "C16-extreme-minmax", ["mag.regime.extreme"], r"^solution-invented.*\((max|min)\) violated", "maximum / minimum over an offset view in a domain that contains i32::MAX (or i32::MIN + 1): a bound that lies beyond the 32-bit range is replaced by the nearest representable value when it is mapped to the inner variable, which is not strong enough when that value is in the domain, so an assignment that violates the constraint is reported", ["kind.max", "kind.min"]),
 ]
 
 def main():
